@@ -7,6 +7,13 @@ set_option linter.unusedVariables false
 namespace Starcal.Gen.Src
 open Starcal
 
+structure interval_IntervalPoint where
+  Pos : Int
+  IsEnd : Bool
+  Closed : Bool
+  ListId : Int
+deriving DecidableEq, Repr
+
 def julian_monthLen : List Int := [31, 28, 31, 30, 31, 30, 31, 31, 30, 31, 30, 31]
 def julian_monthLenSum : List Int := [0, 31, 59, 90, 120, 151, 181, 212, 243, 273, 304, 334, 365]
 def jalali_monthLen : List Int := [31, 31, 31, 31, 31, 31, 30, 30, 30, 30, 30, 30]
@@ -62,6 +69,27 @@ def lib_GetFloatHour (hms : GoSem.HMS) : Option Rat := do
 def lib_FloatHourToHMS (fh : Rat) : Option GoSem.HMS := do
   let total := (GoSem.ftoi ((Rat.floor ((fh * ((3600 : Rat) / 1)) + ((1 : Rat) / 2)) : Int) : Rat))
   pure ({ Hour := (GoSem.u8 (Int.tdiv total 3600)), Minute := (GoSem.u8 (Int.tmod (Int.tdiv total 60) 60)), Second := (GoSem.u8 (Int.tmod total 60)) } : GoSem.HMS)
+
+/-- interval/interval.go:171 -/
+def interval_Less (p : (List interval_IntervalPoint)) (i : Int) (j : Int) : Option Bool := do
+  let a ← (GoSem.idxA p i)
+  let b ← (GoSem.idxA p j)
+  if (decide ((a).Pos ≠ (b).Pos)) then
+    pure (decide ((a).Pos < (b).Pos))
+  else
+    if ((a).IsEnd != (b).IsEnd) then
+      pure (b).IsEnd
+    else
+      if ((a).Closed != (b).Closed) then
+        if (a).IsEnd then
+          pure (b).Closed
+        else
+          pure (a).Closed
+      else
+        if (decide ((a).ListId ≠ (b).ListId)) then
+          pure (decide ((a).ListId < (b).ListId))
+        else
+          pure false
 
 /-- cal_types/julian/julian.go:114 -/
 def julian_IsLeap (year : Int) : Option Bool := do
@@ -445,6 +473,6 @@ def hijri_GetMonthLen (year : Int) (month : Int) : Option Int := do
       pure 29
 
 /-- the functions translated on this run -/
-def translated : List String := ["utils_Mod", "utils_Div", "utils_Divmod", "utils_IntMin", "utils_GetHmsBySeconds", "lib_GetTotalSeconds", "lib_GetFloatHour", "lib_FloatHourToHMS", "julian_IsLeap", "julian_getYearDays", "julian_getMonthDayFromYdays", "julian_ToJd", "julian_JdTo", "julian_GetMonthLen", "jalali_IsLeap", "jalali_getMonthDayFromYdays", "jalali_ToJd", "jalali_JdTo", "jalali_GetMonthLen", "ethiopian_IsLeap", "ethiopian_ToJd", "ethiopian_JdTo", "ethiopian_GetMonthLen", "gprol_IsLeap", "gprol_ToJd", "gprol_JdTo", "gprol_GetMonthLen", "indian_IsLeap", "indian_ToJd", "indian_JdTo", "indian_GetMonthLen", "hijri_IsLeap", "hijri_ToJd", "hijri_JdTo", "hijri_GetMonthLen"]
+def translated : List String := ["utils_Mod", "utils_Div", "utils_Divmod", "utils_IntMin", "utils_GetHmsBySeconds", "lib_GetTotalSeconds", "lib_GetFloatHour", "lib_FloatHourToHMS", "interval_Less", "julian_IsLeap", "julian_getYearDays", "julian_getMonthDayFromYdays", "julian_ToJd", "julian_JdTo", "julian_GetMonthLen", "jalali_IsLeap", "jalali_getMonthDayFromYdays", "jalali_ToJd", "jalali_JdTo", "jalali_GetMonthLen", "ethiopian_IsLeap", "ethiopian_ToJd", "ethiopian_JdTo", "ethiopian_GetMonthLen", "gprol_IsLeap", "gprol_ToJd", "gprol_JdTo", "gprol_GetMonthLen", "indian_IsLeap", "indian_ToJd", "indian_JdTo", "indian_GetMonthLen", "hijri_IsLeap", "hijri_ToJd", "hijri_JdTo", "hijri_GetMonthLen"]
 
 end Starcal.Gen.Src
